@@ -1,3 +1,785 @@
 //go:build verif
 
+// Whole-connection harness shared by C19 / C20 / C32 (tie "net").
+//
+// Two real Endpoints/Conns (client and server, real TLS handshake) talk through an
+// in-memory packetConn pair inside a testing/synctest bubble, i.e. under the package's
+// synthetic clock.  A single driver goroutine (a) hands datagrams over one at a time,
+// deciding drop / duplicate / delay (hence reordering) from the case PRNG, with a
+// loss-free network once the fault budget is used up (eventual delivery), (b) performs the
+// scripted application calls (Write, Flush, Read, Close, CloseWrite, Reset, CloseRead)
+// non-blockingly with cancelled contexts, and (c) advances the clock to the next network or
+// connection timer.  What each endpoint puts on / takes off the wire is recorded through
+// the conn's own qlog hook (packet_sent / packet_received with frame detail).
+//
+// Recorded lines: `scn ...` (the scenario, so a case can be replayed) and `ev ...`
+// (wire/API events) for the Lean monitor (Model/QuicMonitor.lean); impl result is `ok`.
+// Go-side oracle: bytes read = bytes written, in order; EOF exactly at the end of a
+// cleanly closed stream; Close nil only after the peer holds all data and FIN; everything
+// delivered once the network has quiesced; no progress => a result line, not a hang.
 package quic
+
+import (
+	"context"
+	"fmt"
+	"log/slog"
+	"net/netip"
+	"sort"
+	"strings"
+	"sync"
+	"testing"
+	"testing/synctest"
+	"time"
+
+	vu "golang.org/x/net/internal/verifutil"
+)
+
+var vnetT *testing.T
+var vnetHung bool
+
+func TestVerifC19net(t *testing.T) { vnetMain(t, 19) }
+func TestVerifC20net(t *testing.T) { vnetMain(t, 20) }
+func TestVerifC32net(t *testing.T) { vnetMain(t, 32) }
+
+func vnetMain(t *testing.T, prop int) {
+	vnetT = t
+	vu.Run(vu.ConfigFromEnv(), func(r *vu.Rng, i int) []string { return vnetGen(r, i, prop) },
+		func(ops []string, o *vu.Out) { vnetExec(ops, o, prop) })
+}
+
+// ---------------------------------------------------------------- scenario
+
+type vnetStreamPlan struct {
+	side       int // opener / writer
+	uni        bool
+	total      int
+	chunk      int
+	flushMode  int    // 0 never, 1 after each write, 2 sometimes
+	end        string // close | cw | reset | none
+	resetAfter int
+	readSize   int
+	readerStop int // -1: read to the end; n: CloseRead after n bytes
+}
+
+type vnetScenario struct {
+	seed                 uint64
+	drop, dup, maxDelay  int
+	faultDatagrams       int
+	sr, sw, cr           [2]int64 // stream read / stream write / conn read buffer per side
+	streams              []vnetStreamPlan
+}
+
+func vnetGen(r *vu.Rng, i int, prop int) []string {
+	sizes := []int64{64, 300, 1000, 1500, 4096, 5000, 20000, 70000}
+	pick := func() int64 { return sizes[r.Intn(len(sizes))] }
+	drop := []int{0, 5, 10, 20, 35}[r.Intn(5)]
+	dup := []int{0, 5, 15}[r.Intn(3)]
+	delay := []int{0, 2, 20, 120}[r.Intn(4)]
+	ops := []string{fmt.Sprintf("scn net %d %d %d %d %d %d %d %d %d %d %d", r.Uint64()>>1, drop, dup, delay, r.Range(30, 200),
+		pick(), pick(), pick()*2, pick(), pick(), pick()*2)}
+	n := r.Range(1, 5)
+	for k := 0; k < n; k++ {
+		total := []int{0, 1, 100, 1200, 3000, 9000, 30000}[r.Intn(7)]
+		end := []string{"close", "close", "cw", "close"}[r.Intn(4)]
+		resetAfter, readerStop := 0, -1
+		x := r.Intn(100)
+		wReset := 8
+		if prop == 32 {
+			wReset = 45
+		}
+		if x < wReset {
+			end = "reset"
+			resetAfter = r.Intn(total + 1)
+		} else if x < wReset+wReset/2 {
+			readerStop = r.Intn(total + 1)
+		}
+		typ := "u"
+		if r.Chance(1, 3) {
+			typ = "b"
+		}
+		// keep the number of API events per stream bounded (~150 writes / reads)
+		chunk := max([]int{1, 50, 700, 1173, 1174, 4000, 10000}[r.Intn(7)], total/150)
+		readSize := max([]int{1, 10, 512, 4096, 10000}[r.Intn(5)], total/150)
+		ops = append(ops, fmt.Sprintf("scn stream %d %s %d %d %d %s %d %d %d", r.Intn(2), typ, total,
+			chunk, r.Intn(3), end, resetAfter, readSize, readerStop))
+	}
+	return ops
+}
+
+func vnetParse(ops []string) (sc vnetScenario, ok bool) {
+	for _, op := range ops {
+		t := strings.Fields(op)
+		if len(t) < 2 || t[0] != "scn" {
+			continue // recorded `ev` lines of a replayed file
+		}
+		switch {
+		case t[1] == "net" && len(t) == 13:
+			sc.seed = vu.Atou64(t[2])
+			sc.drop, sc.dup, sc.maxDelay, sc.faultDatagrams = vu.Atoi(t[3]), vu.Atoi(t[4]), vu.Atoi(t[5]), vu.Atoi(t[6])
+			for s := 0; s < 2; s++ {
+				sc.sr[s], sc.sw[s], sc.cr[s] = vu.Atoi64(t[7+3*s]), vu.Atoi64(t[8+3*s]), vu.Atoi64(t[9+3*s])
+			}
+			ok = true
+		case t[1] == "stream" && len(t) == 11:
+			p := vnetStreamPlan{side: vu.Atoi(t[2]) & 1, uni: t[3] == "u", total: vu.Atoi(t[4]), chunk: max(1, vu.Atoi(t[5])),
+				flushMode: vu.Atoi(t[6]), end: t[7], resetAfter: vu.Atoi(t[8]), readSize: max(1, vu.Atoi(t[9])), readerStop: vu.Atoi(t[10])}
+			if p.total < 0 || p.total > 1<<20 {
+				return sc, false
+			}
+			sc.streams = append(sc.streams, p)
+		default:
+			return sc, false
+		}
+	}
+	return sc, ok
+}
+
+func vnetByte(id int64, off int) byte { return byte((off*37 + int(id)*19 + (off >> 9) + 5) & 0xff) }
+
+// ---------------------------------------------------------------- fake network
+
+type vnetWire struct {
+	mu  sync.Mutex
+	out [2][][]byte // datagrams written by side s, not yet picked up by the driver
+}
+
+type vnetPC struct {
+	w      *vnetWire
+	side   int
+	addr   netip.AddrPort
+	recvc  chan *datagram
+	closed chan struct{}
+	once   sync.Once
+}
+
+func (p *vnetPC) Close() error              { p.once.Do(func() { close(p.closed) }); return nil }
+func (p *vnetPC) LocalAddr() netip.AddrPort { return p.addr }
+func (p *vnetPC) Read(f func(*datagram)) {
+	for {
+		select {
+		case d := <-p.recvc:
+			f(d)
+		case <-p.closed:
+			return
+		}
+	}
+}
+func (p *vnetPC) Write(d datagram) error {
+	p.w.mu.Lock()
+	defer p.w.mu.Unlock()
+	p.w.out[p.side] = append(p.w.out[p.side], append([]byte(nil), d.b...))
+	return nil
+}
+
+// ---------------------------------------------------------------- qlog hook
+
+type vnetLog struct {
+	side int
+	mu   *sync.Mutex
+	buf  *[]string
+}
+
+func (h vnetLog) Enabled(context.Context, slog.Level) bool { return true }
+func (h vnetLog) WithAttrs([]slog.Attr) slog.Handler       { return h }
+func (h vnetLog) WithGroup(string) slog.Handler            { return h }
+func (h vnetLog) Handle(_ context.Context, r slog.Record) error {
+	var dir string
+	switch r.Message {
+	case "transport:packet_sent":
+		dir = "tx"
+	case "transport:packet_received":
+		dir = "rx"
+	default:
+		return nil
+	}
+	r.Attrs(func(a slog.Attr) bool {
+		if a.Key != "frames" {
+			return true
+		}
+		vals, _ := a.Value.Any().([]slog.Value)
+		for _, v := range vals {
+			var line string
+			switch f := v.Any().(type) {
+			case debugFrameStream:
+				line = fmt.Sprintf("ev %s %d stream %d %d %d %d", dir, h.side, int64(f.id), f.off, len(f.data), smB(f.fin))
+			case debugFrameMaxData:
+				line = fmt.Sprintf("ev %s %d maxdata %d", dir, h.side, f.max)
+			case debugFrameMaxStreamData:
+				line = fmt.Sprintf("ev %s %d maxsd %d %d", dir, h.side, int64(f.id), f.max)
+			case debugFrameResetStream:
+				line = fmt.Sprintf("ev %s %d reset %d %d", dir, h.side, int64(f.id), f.finalSize)
+			case debugFrameConnectionCloseTransport:
+				if dir == "tx" {
+					line = fmt.Sprintf("ev tx %d close %d", h.side, uint64(f.code))
+				}
+			}
+			if line != "" {
+				h.mu.Lock()
+				*h.buf = append(*h.buf, line)
+				h.mu.Unlock()
+			}
+		}
+		return false
+	})
+	return nil
+}
+
+// ---------------------------------------------------------------- the run
+
+type vnetFlight struct {
+	to  int
+	b   []byte
+	due time.Time
+	seq int
+}
+
+type vnetStream struct {
+	plan      vnetStreamPlan
+	id        int64
+	w, r      *Stream // writer-side / reader-side handle
+	wrote     int
+	wdone     bool
+	closing   bool
+	read      int
+	rdone     bool
+	sawEOF    bool
+	sawErr    bool
+	closeOK   bool
+	closeRead bool
+	revDone   bool // bidirectional: the opener has seen the (empty) reverse direction end
+}
+
+type vnetResult struct {
+	events []string
+	fails  [][2]string
+	stats  map[string]int
+}
+
+func vnetExec(ops []string, o *vu.Out, prop int) {
+	sc, ok := vnetParse(ops)
+	if !ok {
+		for _, op := range ops {
+			o.Op(op, "bad-op")
+		}
+		return
+	}
+	for _, op := range ops {
+		if strings.HasPrefix(op, "scn ") {
+			o.Op(op, "ok")
+		}
+	}
+	if vnetHung {
+		o.Op("ev begin", "skipped-after-hang")
+		return
+	}
+	resc := make(chan *vnetResult, 1)
+	go func() {
+		res := &vnetResult{stats: map[string]int{}}
+		defer func() {
+			if e := recover(); e != nil {
+				res.fails = append(res.fails, [2]string{"", fmt.Sprint("panic in harness/conn: ", e)})
+			}
+			resc <- res
+		}()
+		synctest.Test(vnetT, func(t *testing.T) { vnetRun(t, sc, prop, res) })
+	}()
+	var res *vnetResult
+	select {
+	case res = <-resc:
+	case <-time.After(120 * time.Second): // wall-clock watchdog: a hang becomes a result line
+		vnetHung = true
+		o.Op("ev begin", "hang")
+		o.Fail("net-hang", "case did not finish within 120 s of wall-clock time")
+		return
+	}
+	o.Op("ev begin", "ok")
+	for _, e := range res.events {
+		o.Op(e, "ok")
+	}
+	for _, f := range res.fails {
+		o.Fail(f[0], f[1])
+	}
+	for k, v := range res.stats {
+		o.StatN(k, v)
+	}
+}
+
+func vnetRun(t *testing.T, sc vnetScenario, prop int, res *vnetResult) {
+	rng := vu.NewRng(sc.seed)
+	wire := &vnetWire{}
+	var logMu sync.Mutex
+	var logBuf [2][]string
+	fail := func(sig, format string, a ...any) { res.fails = append(res.fails, [2]string{sig, fmt.Sprintf(format, a...)}) }
+	ev := func(format string, a ...any) { res.events = append(res.events, fmt.Sprintf(format, a...)) }
+	flush := func() {
+		synctest.Wait()
+		logMu.Lock()
+		for s := 0; s < 2; s++ {
+			res.events = append(res.events, logBuf[s]...)
+			logBuf[s] = logBuf[s][:0]
+		}
+		logMu.Unlock()
+	}
+
+	addrs := [2]netip.AddrPort{netip.MustParseAddrPort("10.0.0.1:4433"), netip.MustParseAddrPort("10.0.0.2:443")}
+	var pcs [2]*vnetPC
+	var eps [2]*Endpoint
+	var confs [2]*Config
+	for s := 0; s < 2; s++ {
+		side := clientSide
+		if s == 1 {
+			side = serverSide
+		}
+		pcs[s] = &vnetPC{w: wire, side: s, addr: addrs[s], recvc: make(chan *datagram), closed: make(chan struct{})}
+		confs[s] = &Config{
+			TLSConfig:                newTestTLSConfig(side),
+			MaxStreamReadBufferSize:  sc.sr[s],
+			MaxStreamWriteBufferSize: sc.sw[s],
+			MaxConnReadBufferSize:    sc.cr[s],
+			QLogLogger:               slog.New(vnetLog{side: s, mu: &logMu, buf: &logBuf[s]}),
+		}
+		var lc *Config
+		if s == 1 {
+			lc = confs[s]
+		}
+		e, err := newEndpoint(pcs[s], lc, nil)
+		if err != nil {
+			fail("", "newEndpoint: %v", err)
+			return
+		}
+		eps[s] = e
+		ev("ev init %d %d %d", s, confs[s].maxConnReadBufferSize(), confs[s].maxStreamReadBufferSize())
+	}
+	var conns [2]*Conn
+	defer func() {
+		for s := 0; s < 2; s++ {
+			if conns[s] != nil {
+				conns[s].exit()
+			}
+		}
+		for s := 0; s < 2; s++ {
+			eps[s].Close(canceledContext())
+		}
+	}()
+
+	// ---- network
+	var flights []vnetFlight
+	seq, faultsLeft := 0, 0
+	collect := func() {
+		wire.mu.Lock()
+		out := wire.out
+		wire.out = [2][][]byte{}
+		wire.mu.Unlock()
+		now := time.Now()
+		for s := 0; s < 2; s++ {
+			for _, b := range out[s] {
+				res.stats["net:datagrams"]++
+				copies := 1
+				delay := time.Duration(0)
+				if faultsLeft > 0 {
+					faultsLeft--
+					if rng.Intn(100) < sc.drop {
+						res.stats["net:dropped"]++
+						continue
+					}
+					if rng.Intn(100) < sc.dup {
+						res.stats["net:duplicated"]++
+						copies = 2
+					}
+				}
+				for c := 0; c < copies; c++ {
+					if faultsLeft > 0 && sc.maxDelay > 0 {
+						delay = time.Duration(rng.Intn(sc.maxDelay*1000+1)) * time.Microsecond
+					}
+					flights = append(flights, vnetFlight{to: 1 - s, b: b, due: now.Add(time.Millisecond + delay), seq: seq})
+					seq++
+				}
+			}
+		}
+		sort.SliceStable(flights, func(i, j int) bool {
+			if !flights[i].due.Equal(flights[j].due) {
+				return flights[i].due.Before(flights[j].due)
+			}
+			return flights[i].seq < flights[j].seq
+		})
+	}
+	deliverDue := func() {
+		for len(flights) > 0 && !flights[0].due.After(time.Now()) {
+			f := flights[0]
+			flights = flights[1:]
+			d := newDatagram()
+			d.b = d.b[:len(f.b)]
+			copy(d.b, f.b)
+			d.peerAddr = addrs[1-f.to]
+			d.localAddr = addrs[f.to]
+			select {
+			case pcs[f.to].recvc <- d:
+			case <-pcs[f.to].closed:
+			}
+			flush()
+			collect()
+		}
+	}
+	nextTimer := func(c *Conn) time.Time {
+		if c == nil {
+			return time.Time{}
+		}
+		nextc := make(chan time.Time, 1)
+		c.sendMsg(func(now, next time.Time, c *Conn) { nextc <- next })
+		synctest.Wait()
+		select {
+		case tm := <-nextc:
+			return tm
+		default:
+			return time.Time{}
+		}
+	}
+	// advance moves the clock to the next network or connection event; false if there is none.
+	advance := func() bool {
+		var next time.Time
+		if len(flights) > 0 {
+			next = flights[0].due
+		}
+		for s := 0; s < 2; s++ {
+			if tm := nextTimer(conns[s]); !tm.IsZero() && (next.IsZero() || tm.Before(next)) {
+				next = tm
+			}
+		}
+		if next.IsZero() {
+			return false
+		}
+		d := time.Until(next)
+		if d > 20*time.Second {
+			return false // only idle / keep-alive timers left
+		}
+		if d > 0 {
+			time.Sleep(d)
+		}
+		flush()
+		collect()
+		return true
+	}
+
+	// ---- handshake over a perfect network
+	type dialRes struct {
+		c   *Conn
+		err error
+	}
+	dialc := make(chan dialRes, 1)
+	go func() {
+		c, err := eps[0].Dial(context.Background(), "udp", addrs[1].String(), confs[0])
+		dialc <- dialRes{c, err}
+	}()
+	for i := 0; conns[0] == nil; i++ {
+		flush()
+		collect()
+		deliverDue()
+		select {
+		case dr := <-dialc:
+			if dr.err != nil {
+				fail("", "Dial: %v", dr.err)
+				return
+			}
+			conns[0] = dr.c
+		default:
+			if i > 2000 {
+				fail("net-no-progress", "handshake did not complete")
+				return
+			}
+			if len(flights) > 0 {
+				time.Sleep(time.Until(flights[0].due))
+			} else {
+				time.Sleep(time.Millisecond)
+			}
+		}
+	}
+	for i := 0; conns[1] == nil && i < 2000; i++ {
+		flush()
+		collect()
+		deliverDue()
+		if c, err := eps[1].Accept(canceledContext()); err == nil {
+			conns[1] = c
+		} else if len(flights) > 0 {
+			time.Sleep(time.Until(flights[0].due))
+		} else {
+			time.Sleep(time.Millisecond)
+		}
+	}
+	if conns[1] == nil {
+		fail("net-no-progress", "server never accepted the connection")
+		return
+	}
+	// let the handshake settle (HANDSHAKE_DONE, acks)
+	for i := 0; i < 50 && (len(flights) > 0 || i < 5); i++ {
+		flush()
+		collect()
+		deliverDue()
+		if len(flights) > 0 {
+			time.Sleep(time.Until(flights[0].due))
+		}
+	}
+	faultsLeft = sc.faultDatagrams
+
+	// ---- open the streams
+	var sts []*vnetStream
+	byID := [2]map[int64]*vnetStream{{}, {}}
+	for _, p := range sc.streams {
+		var s *Stream
+		var err error
+		errc := make(chan error, 1)
+		go func() {
+			if p.uni {
+				s, err = conns[p.side].NewSendOnlyStream(context.Background())
+			} else {
+				s, err = conns[p.side].NewStream(context.Background())
+			}
+			errc <- err
+		}()
+		flush()
+		select {
+		case err := <-errc:
+			if err != nil {
+				fail("", "NewStream: %v", err)
+				return
+			}
+		default:
+			fail("net-no-progress", "NewStream blocked")
+			return
+		}
+		s.SetReadContext(canceledContext())
+		s.SetWriteContext(canceledContext())
+		st := &vnetStream{plan: p, id: s.ID(), w: s}
+		sts = append(sts, st)
+		byID[p.side][st.id] = st
+	}
+
+	// ---- main loop
+	ctxErr := canceledContext().Err()
+	allDone := func() bool {
+		for _, st := range sts {
+			if !st.wdone || !st.rdone {
+				return false
+			}
+		}
+		return true
+	}
+	idle := 0
+	completed := false
+	for step := 0; step < 20000; step++ {
+		deliverDue()
+		progress := false
+		// accept peer-initiated streams
+		for s := 0; s < 2; s++ {
+			for {
+				as, err := conns[s].AcceptStream(canceledContext())
+				if err != nil {
+					break
+				}
+				st := byID[1-s][as.ID()]
+				if st == nil {
+					fail("", "side %d accepted unknown stream %d", s, as.ID())
+					return
+				}
+				as.SetReadContext(canceledContext())
+				as.SetWriteContext(canceledContext())
+				st.r = as
+				if !st.plan.uni {
+					ev("ev wclose %d %d", s, as.ID())
+					as.CloseWrite() // the reverse direction of a bidirectional stream carries no data
+				}
+				progress = true
+			}
+		}
+		for _, st := range sts {
+			p := st.plan
+			ws := p.side
+			// ---- the opener drains the empty reverse direction of a bidirectional stream
+			if !p.uni && !st.revDone {
+				var b [16]byte
+				if n, err := st.w.Read(b[:]); n > 0 {
+					fail("", "stream %d: %d bytes on the reverse direction, none were written", st.id, n)
+				} else if err != nil && err != ctxErr {
+					st.revDone, progress = true, true
+					if err.Error() == "EOF" {
+						ev("ev eof %d %d", ws, st.id)
+					}
+				}
+			}
+			// ---- writer
+			if !st.wdone {
+				switch {
+				case p.end == "reset" && st.wrote >= p.resetAfter && !st.closing:
+					st.w.Reset(uint64(rng.Intn(1000)))
+					st.closing, st.wdone, progress = true, true, true
+					res.stats["api:reset"]++
+				case st.wrote < p.total && !st.closing:
+					n := min(p.chunk, p.total-st.wrote)
+					if p.end == "reset" {
+						n = min(n, max(1, p.resetAfter-st.wrote))
+					}
+					data := make([]byte, n)
+					for i := range data {
+						data[i] = vnetByte(st.id, st.wrote+i)
+					}
+					k, err := st.w.Write(data)
+					if k > 0 {
+						ev("ev write %d %d %s", ws, st.id, vu.Hex(data[:k]))
+						st.wrote += k
+						progress = true
+					}
+					if err != nil && err != ctxErr {
+						if p.readerStop < 0 {
+							fail("", "Write on stream %d: %v", st.id, err)
+						}
+						st.wdone, progress = true, true // the peer stopped reading: the send side was reset
+					}
+					if err == nil && (p.flushMode == 1 || (p.flushMode == 2 && rng.Chance(1, 3))) {
+						st.w.Flush()
+					}
+				default:
+					switch p.end {
+					case "close":
+						if !st.closing {
+							ev("ev wclose %d %d", ws, st.id)
+							st.closing, progress = true, true
+							if !p.uni && !st.revDone {
+								ev("ev closeread %d %d", ws, st.id) // Close = CloseRead + CloseWrite
+								st.revDone = true
+							}
+						}
+						err := st.w.Close()
+						if err == nil {
+							ev("ev closeok %d %d", ws, st.id)
+							st.closeOK, st.wdone, progress = true, true, true
+							res.stats["api:closeok"]++
+							// ---- oracle: Close nil only once the peer has everything
+							if st.r == nil || !st.r.inset.isrange(0, int64(p.total)) && p.total > 0 || st.r.insize != int64(p.total) {
+								if !(st.r != nil && (st.closeRead || st.r.inresetcode != -1)) {
+									fail("", "Close on stream %d returned nil before the peer held all %d bytes and FIN", st.id, p.total)
+								}
+							}
+						} else if err != ctxErr {
+							// "stream reset": the peer stopped reading
+							st.wdone, progress = true, true
+							if p.readerStop < 0 {
+								fail("", "Close on stream %d: %v", st.id, err)
+							}
+						}
+					case "cw":
+						ev("ev wclose %d %d", ws, st.id)
+						st.w.CloseWrite()
+						st.closing, st.wdone, progress = true, true, true
+					default:
+						st.w.Flush()
+						st.closing, st.wdone, progress = true, true, true
+					}
+				}
+			}
+			// ---- reader
+			if st.r != nil && !st.rdone {
+				rs := 1 - ws
+				for k := 0; k < 4 && !st.rdone; k++ {
+					if p.readerStop >= 0 && st.read >= p.readerStop {
+						ev("ev closeread %d %d", rs, st.id)
+						st.r.CloseRead()
+						st.closeRead, st.rdone, progress = true, true, true
+						res.stats["api:closeread"]++
+						break
+					}
+					buf := make([]byte, p.readSize)
+					n, err := st.r.Read(buf)
+					if n > 0 {
+						ev("ev read %d %d %s", rs, st.id, vu.Hex(buf[:n]))
+						for i := 0; i < n; i++ {
+							if buf[i] != vnetByte(st.id, st.read+i) {
+								fail("", "stream %d: Read returned %#x at offset %d, written byte was %#x", st.id, buf[i], st.read+i, vnetByte(st.id, st.read+i))
+								break
+							}
+						}
+						st.read += n
+						progress = true
+						if st.read > st.wrote {
+							fail("", "stream %d: %d bytes read, only %d written", st.id, st.read, st.wrote)
+						}
+					}
+					if err == nil {
+						continue
+					}
+					if err == ctxErr {
+						break
+					}
+					st.rdone, progress = true, true
+					if err.Error() == "EOF" {
+						ev("ev eof %d %d", rs, st.id)
+						st.sawEOF = true
+						if !st.closing || p.end == "reset" || p.end == "none" || st.read != p.total {
+							fail("", "stream %d: EOF after %d bytes (written %d of %d, end=%s)", st.id, st.read, st.wrote, p.total, p.end)
+						}
+					} else {
+						ev("ev readerr %d %d", rs, st.id)
+						st.sawErr = true
+						if p.end != "reset" {
+							fail("", "stream %d: Read failed with %v, stream was not reset", st.id, err)
+						}
+					}
+				}
+			}
+			if p.end == "none" && st.r != nil && st.read == st.wrote && st.wdone {
+				st.rdone = true // nothing more will come and no EOF is due
+			}
+			if p.end == "reset" && st.wdone && st.r == nil && step > 0 {
+				// a stream reset before any frame left may never become visible to the peer as data;
+				// the RESET_STREAM still opens it, so keep waiting for the reader handle.
+			}
+		}
+		flush()
+		collect()
+		if allDone() {
+			completed = true
+			break
+		}
+		if progress || len(flights) > 0 && !flights[0].due.After(time.Now()) {
+			idle = 0
+			continue
+		}
+		if !advance() {
+			idle++
+			if idle > 3 {
+				break
+			}
+		}
+	}
+	res.stats["net:cases"]++
+	if completed {
+		res.stats["net:completed"]++
+		// let the last acknowledgements travel, then claim quiescence
+		for i := 0; i < 20 && len(flights) > 0; i++ {
+			time.Sleep(time.Until(flights[0].due))
+			deliverDue()
+		}
+		ev("ev fin")
+		for _, st := range sts {
+			p := st.plan
+			if (p.end == "close" || p.end == "cw") && p.readerStop < 0 && !(st.sawEOF && st.read == p.total) {
+				fail("", "stream %d: closed after %d bytes but the reader got %d bytes, eof=%v", st.id, p.total, st.read, st.sawEOF)
+			}
+		}
+	} else {
+		var sb strings.Builder
+		for _, st := range sts {
+			fmt.Fprintf(&sb, " [id=%d wrote=%d/%d wdone=%v read=%d rdone=%v accepted=%v", st.id, st.wrote, st.plan.total, st.wdone, st.read, st.rdone, st.r != nil)
+			w := st.w
+			fmt.Fprintf(&sb, " W: out=%d,%d fl=%d win=%d ms=%d un=%s ak=%s bl=%s", w.out.start, w.out.end, w.outflushed, w.outwin, w.outmaxsent, smRS(w.outunsent), smRS(w.outacked), smSV(w.outblocked))
+			if r := st.r; r != nil {
+				fmt.Fprintf(&sb, " R: in=%d,%d win=%d sm=%s set=%s ib=%d,%d", r.in.start, r.in.end, r.inwin, smSV(r.insendmax), smRS(r.inset), len(r.inbuf), r.inbufoff)
+			}
+			sb.WriteString("]")
+		}
+		for s := 0; s < 2; s++ {
+			f := &conns[s].streams.inflow
+			of := &conns[s].streams.outflow
+			fmt.Fprintf(&sb, " conn%d: in u=%d s=%d n=%d c=%d sv=%s out max=%d used=%d state=%d flights=%d", s, f.usedLimit, f.sentLimit, f.newLimit, f.credit.Load(), smSV(f.sent), of.max, of.used, conns[s].lifetime.state, len(flights))
+		}
+		fail("net-no-progress", "no progress although the network is loss-free again:%s", sb.String())
+	}
+}
